@@ -131,11 +131,11 @@ static void mon_cache_tok_done(app_tok_t *t)
       continue;
     }
     if (c->t_accept < 0) {
-      /* first delivery = acceptance */
-      c->t_accept = sim_now_us;
-      c->epoch    = ck_epoch;
+      /* acceptance = the moment the library read the packet from its socket (a response can be
+       * accepted and cached without being delivered to any request, e.g. a server probe copy) */
+      c->t_accept = sim_pktinfo[s - 1].t_read ? sim_pktinfo[s - 1].t_read : sim_now_us;
+      c->epoch    = sim_pktinfo[s - 1].t_read ? sim_pktinfo[s - 1].epoch_read : ck_epoch;
       MON_EVAL("cache_accept");
-      continue;
     }
     if (sim_pktinfo[s - 1].t_inject >= t->t_start) {
       /* same packet delivered to the request it answered (e.g. several records of one answer) */
